@@ -4,16 +4,36 @@
 (* against the contract of FixedPoint.tla.  TLC cannot predict float rounding,*)
 (* but it can decide whether whatever came out is a valid, exactly invertible *)
 (* model and whether all recorded representations agree.                      *)
-EXTENDS FixedPoint, TLC, Json, IOUtils
+(* Numbers are recorded as pairs <<hi, lo>> in base 2^16 so that PRECISION 32 *)
+(* (cumulatives up to 2^32) stays inside TLC's integers; the contract below   *)
+(* is FixedPoint!Valid / RoundTrip transcribed to that representation.        *)
+EXTENDS Naturals, Sequences, TLC, Json, IOUtils
 
 Rec == ndJsonDeserialize(IOEnv.TRACE)
 VARIABLE l
 Init == l = 1
 Next == l <= Len(Rec) /\ l' = l + 1
 Spec == Init /\ [][Next]_l
-
 Cur == Rec[IF l <= Len(Rec) THEN l ELSE Len(Rec)]
-RowOf(tab, sym) == tab[IndexOf(tab, sym)]
+
+Base == 65536
+Zero == <<0, 0>>
+Add(a, b) == LET lo == a[2] + b[2] IN <<a[1] + b[1] + lo \div Base, lo % Base>>
+Less(a, b) == a[1] < b[1] \/ (a[1] = b[1] /\ a[2] < b[2])
+Leq(a, b) == a = b \/ Less(a, b)
+Pow2P(P) == IF P >= 16 THEN <<2^(P - 16), 0>> ELSE <<0, 2^P>>
+WellFormed(x) == x[1] >= 0 /\ x[2] >= 0 /\ x[2] < Base
+
+\* FixedPoint!Valid on rows <<symbol, cum, prob>>
+Valid(rows, P) ==
+    /\ Len(rows) >= 2
+    /\ rows[1][2] = Zero
+    /\ \A i \in 1..Len(rows) : rows[i][3] # Zero /\ WellFormed(rows[i][2]) /\ WellFormed(rows[i][3])
+    /\ \A i \in 1..(Len(rows) - 1) : rows[i + 1][2] = Add(rows[i][2], rows[i][3])
+    /\ Add(rows[Len(rows)][2], rows[Len(rows)][3]) = Pow2P(P)
+    /\ \A i, j \in 1..Len(rows) : i # j => rows[i][1] # rows[j][1]
+Support(rows) == { rows[i][1] : i \in 1..Len(rows) }
+RowOf(rows, sym) == rows[CHOOSE i \in 1..Len(rows) : rows[i][1] = sym]
 \* every recorded encoder view agrees with the table; symbols outside the support have no probability
 EncOK(r) == \A i \in 1..Len(r.enc) : LET x == r.enc[i] IN
     IF x[1] \in Support(r.rows) THEN Len(x) = 3 /\ x[2] = RowOf(r.rows, x[1])[2] /\ x[3] = RowOf(r.rows, x[1])[3]
@@ -21,7 +41,7 @@ EncOK(r) == \A i \in 1..Len(r.enc) : LET x == r.enc[i] IN
 \* every recorded quantile lookup returns the table entry that contains the quantile
 DecOK(r) == \A i \in 1..Len(r.dec) : LET x == r.dec[i] IN
     /\ x[2] \in Support(r.rows) /\ <<x[2], x[3], x[4]>> = RowOf(r.rows, x[2])
-    /\ x[3] <= x[1] /\ x[1] < x[3] + x[4]
+    /\ Leq(x[3], x[1]) /\ Less(x[1], Add(x[3], x[4]))
 \* other representations of the same model recorded alongside (C05)
 AltOK(r) == \A i \in 1..Len(r.alt) : r.alt[i].rows = r.rows
 RecordOK(r) == r.panic = "" /\ Valid(r.rows, r.P) /\ EncOK(r) /\ DecOK(r) /\ AltOK(r)
